@@ -2,6 +2,7 @@
 import itertools
 
 import harness.common  # noqa: F401
+from inscripta.biocantor.exc import BioCantorException
 from inscripta.biocantor.gene.cds import CDSInterval
 from inscripta.biocantor.gene.cds_frame import CDSFrame
 from inscripta.biocantor.gene.collections import AnnotationCollection
@@ -402,6 +403,85 @@ def pickle_fn(parent_kind, with_variants=False):
     return fn
 
 
+def chunk_relative_dict_fn(strand):
+    """chunk-relative dictionary export (to_dict(chromosome_relative_coordinates=False)) of a coding transcript on a chunk that may cut it anywhere, re-imported
+    as a stand-alone annotation of the chunk sequence: same CDS blocks, the chunk-relative frames, the same protein; CDSInterval and TranscriptInterval export
+    the same CDS"""
+
+    def fn(s0, l0, g1, l1, f0, w):
+        s0, l0, g1, l1, f0, w = concretize(s0, l0, g1, l1, f0, w)
+        with untraced():
+            from harness.cdsmodel import consistent_frames
+            from inscripta.biocantor.gene.cds_frame import CDSFrame
+
+            Lc = 24
+            genome = GENOME40 * 2
+            ex = [(s0, s0 + l0), (s0 + l0 + g1, s0 + l0 + g1 + l1)]
+            frames = [CDSFrame(f) for f in consistent_frames([l0, l1], strand, f0)]
+            on_chunk = _tx(ex, strand, cds=ex, frames=frames, par=chunk_parent(w, Lc, seq=genome[w: w + Lc]))
+            if on_chunk.cds.chunk_relative_location.is_empty:
+                return True
+            exported = on_chunk.to_dict(chromosome_relative_coordinates=False)
+            want_blocks = [(b.start, b.end) for b in on_chunk.chunk_relative_cds_blocks]
+            want_frames = [f.name for f in on_chunk.cds.chunk_relative_frames]
+            # outside the claim (as in C05/C17): a 5'-most visible CDS block that is not longer than its own frame offset - the library's frame model does not
+            # define where the reading frame resumes then
+            i5 = 0 if strand is PLUS else -1
+            if want_blocks[i5][1] - want_blocks[i5][0] <= on_chunk.cds.chunk_relative_frames[i5].value:
+                return True
+            try:
+                want_protein = str(on_chunk.get_protein_sequence())
+            except (BioCantorException, ValueError) as e:  # noqa
+                want_protein = type(e).__name__
+            ok = [tuple(x) for x in zip(exported["cds_starts"], exported["cds_ends"])] == want_blocks and exported["cds_frames"] == want_frames
+            ok = ok and on_chunk.cds.to_dict(chromosome_relative_coordinates=False)["cds_frames"] == want_frames
+            standalone = chrom_parent(genome[w: w + Lc], name="chunkseq")
+            back = TranscriptInterval.from_dict(exported, standalone)
+            try:
+                got_protein = str(back.get_protein_sequence())
+            except (BioCantorException, ValueError) as e:  # noqa
+                got_protein = type(e).__name__
+            ok = ok and [f.name for f in back.cds.frames] == want_frames and got_protein == want_protein
+            ok = ok and str(back.get_spliced_sequence()) == str(on_chunk.get_spliced_sequence())
+            # the chromosome-relative dictionary of the same object is the whole-chromosome one
+            return ok and on_chunk.to_dict() == _tx(ex, strand, cds=ex, frames=frames).to_dict()
+
+    return fn
+
+
+def same_name_genomes_fn():
+    """two LONG chromosomes with the same name, type, alphabet and length but different bases exported and re-imported in one process (from_dict and pickle):
+    every collection comes back with its OWN sequence (a loader that remembers parents by name and length would hand out the first one)"""
+
+    def fn(e, d, where, order):
+        e, d, where, order = concretize(e, d, where, order)
+        with untraced():
+            import pickle
+
+            n = 2 ** e + d if e < 20 else 100000 + d
+            unit = "ACGTTGCAAGCTTAGGCTAACGTCA"
+            base = (unit * (n // len(unit) + 1))[:n]
+            pos = [30, n // 2, n - 30][where]
+            other = base[:pos] + ("A" if base[pos] != "A" else "C") + base[pos + 1:]
+            colls = []
+            for data in (base, other):
+                par = chrom_parent(data)
+                ex = [(pos - 10, pos + 10)]
+                colls.append(AnnotationCollection(genes=[GeneInterval([_tx(ex, PLUS, par=par)], gene_id="gid", parent_or_seq_chunk_parent=par)], sequence_name="chr1",
+                                                  parent_or_seq_chunk_parent=par))
+            seqs = [str(c.genes[0].transcripts[0].get_spliced_sequence()) for c in colls]
+            ok = seqs[0] != seqs[1]
+            for i in ((0, 1, 0) if order == 0 else (1, 0, 1)):
+                d_ = colls[i].to_dict(export_parent=True)
+                r = AnnotationCollection.from_dict(d_)
+                ok = ok and str(r.genes[0].transcripts[0].get_spliced_sequence()) == seqs[i] and r.to_dict(export_parent=True) == d_
+                r2 = pickle.loads(pickle.dumps(colls[i]))
+                ok = ok and str(r2.genes[0].transcripts[0].get_spliced_sequence()) == seqs[i]
+            return ok
+
+    return fn
+
+
 def models_importable():
     try:
         import inscripta.biocantor.io.models  # noqa: F401
@@ -505,6 +585,20 @@ def obligations(tier):
                        desc="pickle round trip of an AnnotationCollection (%s parent%s): equal dictionary form, guid, bounds, children, sequence" % (
                            "un-named chromosome" if pk == "chrom_noid" else pk, ", with a variant collection" if wv else ""),
                        bounds="1 gene + 1 feature collection%s, realised small coordinates" % (" + 1 variant collection" if wv else ""), examples=[dict(s0=3, l0=2, g1=1, l1=4, w=0)]))
+    for strand in (PLUS, MINUS):
+        out.append(Obl("chunk_relative_dict_%s" % sname(strand), chunk_relative_dict_fn(strand), dict(s0=int, l0=int, g1=int, l1=int, f0=int, w=int),
+                       lambda s0, l0, g1, l1, f0, w: 8 <= s0 and s0 <= 9 and 4 <= l0 and l0 <= 6 and 2 <= g1 and g1 <= 3 and 4 <= l1 and l1 <= 6 and 0 <= f0 and f0 <= 2
+                       and 0 <= w and w <= 30, budget=900, cost=60,
+                       desc="chunk-relative dictionary export of a coding transcript whose chunk may cut it anywhere, re-imported on the chunk sequence alone: same CDS "
+                            "blocks, frames = chunk_relative_frames (also from CDSInterval.to_dict), same protein and spliced sequence; chromosome-relative export unchanged",
+                       bounds="2 exons 4..6 nt (intron 2..3) at 8..9, start frames 0..2, chunk of 24 nt starting at 0..30 (realised); a visible 5' block not longer than its frame offset is outside the claim",
+                       examples=[dict(s0=8, l0=5, g1=2, l1=6, f0=0, w=10), dict(s0=9, l0=4, g1=3, l1=5, f0=1, w=2)]))
+    out.append(Obl("same_name_long_genomes", same_name_genomes_fn(), dict(e=int, d=int, where=int, order=int),
+                   lambda e, d, where, order: (e == 12 or e == 16 or e == 17 or e == 20) and -1 <= d and d <= 1 and 0 <= where and where <= 2 and 0 <= order and order <= 1,
+                   budget=900, cost=60,
+                   desc="two chromosomes with the same name / type / alphabet / length that differ in ONE base (lengths 4096, 65536, 131072, 100000, each -1/0/+1), "
+                        "exported with their parent and re-imported alternately in one process (from_dict and pickle): each comes back with its own sequence",
+                   bounds="12 lengths x 3 edit positions x 2 orders (closed by the solver)", examples=[dict(e=20, d=1, where=1, order=0), dict(e=12, d=0, where=0, order=1)]))
     if models_importable():
         out.append(Obl("schema_json_roundtrip_variants", schema_fn(True), dict(s0=int, l0=int, g1=int, l1=int),
                        lambda s0, l0, g1, l1: 0 <= s0 and s0 <= 3 and 1 <= l0 and l0 <= 3 and 1 <= g1 and g1 <= 2 and 1 <= l1 and l1 <= 3,
